@@ -590,6 +590,10 @@ def r15_9(ctx, rc):
     once would be accepted after it was damaged."""
     from .c07 import memoised_ambient_census
     memoised_ambient_census(ctx, rc)
+    # a versions / argument value that is not JSON is refused by the
+    # sanitiser: it is total and rejects with TypeError (R18.2)
+    from .c18 import r18_2
+    r18_2(ctx, rc)
 
 
 RULES = [
